@@ -408,6 +408,56 @@ def str_format(I, s, args, kw):
 def rope_method(I, r, name, args, kw):
     parts = r.parts
     B = _B()
+    if name == 'count' and len(args) == 1 and isinstance(args[0], str) and len(args[0]) == 1:
+        ch = args[0]
+        n = 0
+        for p in parts:
+            if isinstance(p, str):
+                n += p.count(ch)
+            elif p.kind not in ('f', 'exact'):
+                raise Unsupported('count on opaque text')
+            elif ch == '.':
+                if p.ndots() is None:
+                    raise Unsupported("count of '.' in a numeral whose form is unknown")
+                n += p.ndots()
+            elif ch in B.FMT_ALPHABET:
+                raise Unsupported(f'count of {ch!r} in symbolic text')
+        return n
+    if name == 'replace' and args and args[0] == '.' and isinstance(args[1], str) and \
+            all(isinstance(p, str) or (p.kind in ('f', 'exact') and p.ndots() is not None) for p in parts):
+        # decimal points are replaced left to right; one inside a numeral would cut the numeral in two: outside the subset
+        limit = args[2] if len(args) > 2 else -1
+        out, done = [], 0
+        for p in parts:
+            if isinstance(p, str):
+                k = p.count('.') if limit < 0 else min(p.count('.'), limit - done)
+                out.append(p.replace('.', args[1], k))
+                done += k
+            else:
+                if p.ndots() and (limit < 0 or done < limit):
+                    raise Unsupported("replace of the decimal point inside a symbolic numeral")
+                out.append(p)
+        return Rope(out)
+    if name == 'split' and args and args[0] == '.' and len(args) == 1 and \
+            all(isinstance(p, str) or (p.kind in ('f', 'exact') and p.ndots() is not None) for p in parts):
+        # a numeral with a decimal point contributes two pieces: its integer and its fraction digits (opaque texts)
+        out = [[]]
+        for p in parts:
+            if isinstance(p, str):
+                segs = p.split('.')
+                out[-1].append(segs[0])
+                for sg in segs[1:]:
+                    out.append([sg])
+            elif p.ndots() == 0:
+                out[-1].append(p)
+            else:
+                out[-1].append(Fmt(('integer digits of', p.id), None, 'opaque'))
+                out.append([Fmt(('fraction digits of', p.id), None, 'opaque')])
+        res = []
+        for o in out:
+            o = [x for x in o if x != '']
+            res.append(''.join(o) if all(isinstance(x, str) for x in o) else Rope(o))
+        return VList(res)
     if name == 'replace':
         old, new = args[0], args[1]
         if isinstance(old, str) and isinstance(new, str):
